@@ -588,3 +588,54 @@ void h_const(void) {
 }
 /* the limit: a table of 0xFFFF entries (the largest index the 16-bit field of JOP_LOAD_CONSTANT can name is 0xFFFF) refuses */
 #endif
+
+/* ------------------------------------------------------------------ the real allocator: a temporary taken and released (-DEM_REAL_REGALLOC, src emit.c + regalloc.c) */
+#ifdef EM_REAL_REGALLOC
+#define RT_CAP 16
+#define RT_MAXCHUNKS 10
+static uint32_t rt_chunks[RT_CAP];
+void h_temp_roundtrip(void) {
+    JanetcRegisterAllocator ra;
+    int32_t count = nd_i32();
+    __CPROVER_assume(count >= 1 && count <= RT_MAXCHUNKS);
+    for (int i = 0; i < RT_CAP; i++) rt_chunks[i] = nd_u32();
+    ra.chunks = rt_chunks; ra.capacity = RT_CAP; ra.count = count; ra.max = nd_i32(); ra.regtemps = nd_i32() & 0xFF;
+    __CPROVER_assume(ra.max >= 0 && ra.max <= 0xFFFF);
+    if (count > 7) __CPROVER_assume((rt_chunks[7] & 0xFFFF0000u) == 0xFFFF0000u);      /* wf_ra: the reserved temporaries are always allocated */
+    int tag = nd_int();
+    __CPROVER_assume(tag >= 0 && tag <= 7 && !(ra.regtemps & (1 << tag)));              /* requires: the tag is free */
+    int32_t tags0 = ra.regtemps;
+    int32_t g = nd_i32();                                                                /* ghost: any register */
+    __CPROVER_assume(g >= 0 && g < RT_CAP * 32);
+    int before = (g >> 5) < ra.count && ((rt_chunks[g >> 5] >> (g & 31)) & 1u);
+    int32_t reg = janetc_regalloc_temp(&ra, (JanetcRegisterTemp) tag);
+    __CPROVER_assert(reg >= 0 && reg <= 0xFF, "comp.regalloc: a temporary fits 8 bits");
+    janetc_regalloc_freetemp(&ra, reg, (JanetcRegisterTemp) tag);
+    int after = (g >> 5) < ra.count && ((rt_chunks[g >> 5] >> (g & 31)) & 1u);
+    __CPROVER_assert(ra.regtemps == tags0, "comp.regalloc: the tag is free again");
+    __CPROVER_assert(after == before, "comp.regalloc: taking and releasing a temporary leaves the set of allocated registers as it was (no register is consumed)");
+    if (reg >= 0xF0) REACH("roundtrip: reserved temporary (near registers exhausted)");
+    REACH("roundtrip: normal return");
+}
+#endif
+
+/* ------------------------------------------------------------------ janetc_const at the limit (-DEM_CONST_LIMIT): a full table refuses */
+#ifdef EM_CONST_LIMIT
+static struct { int32_t cap, cnt; Janet data[0x10002]; } emL_mem;
+int emL_equals_stub(Janet a, Janet b) { return 0; }      /* x is not in the table */
+void h_const_limit(void) {
+    em_init(0);
+    int32_t len = nd_int() ? 0xFFFF : 0xFFFE;
+    emL_mem.cap = 0x10002; emL_mem.cnt = len;
+    em_scope.consts = emL_mem.data;
+    Janet x; x.type = JANET_STRING; x.as.u64 = 99;
+    int32_t k = janetc_const(&em_c, x);
+    if (len >= 0xFFFF) {
+        __CPROVER_assert(em_errors == 1 && emL_mem.cnt == len, "comp.const: a table of 0xFFFF constants takes no more: compile error, nothing added");
+        REACH("const: table full");
+    } else {
+        __CPROVER_assert(em_errors == 0 && emL_mem.cnt == len + 1 && k == len && k <= 0xFFFF && emL_mem.data[k].as.u64 == 99, "comp.const: the last index the 16-bit field can name is still usable");
+        REACH("const: last free index");
+    }
+}
+#endif
